@@ -32,10 +32,40 @@ theorem lawful_cmpRDiff : LawfulCmp cmpRDiff where
   flip := fun a b => by unfold cmpRDiff; omega
   trans := fun a b c h1 h2 => by unfold cmpRDiff at *; omega
 
+theorem lawful_cmpRDiff3 : LawfulCmp cmpRDiff3 where
+  eq_iff := fun a b => by unfold cmpRDiff3; omega
+  flip := fun a b => by unfold cmpRDiff3; omega
+  trans := fun a b c h1 h2 => by unfold cmpRDiff3 at *; omega
+
+/-- "by a key, then ascending" is a strict total order whatever the key function -/
+theorem lawful_cmpLex (f : Int → Int) : LawfulCmp (cmpLex f) where
+  eq_iff := fun a b => by
+    constructor
+    · intro h
+      unfold cmpLex cmpAsc at h
+      repeat' split at h
+      all_goals omega
+    · intro h; subst h; simp [cmpLex, cmpAsc]
+  flip := fun a b => by
+    unfold cmpLex cmpAsc; generalize f a = x; generalize f b = y
+    constructor <;> intro h <;> (repeat' split at *) <;> omega
+  trans := fun a b c h1 h2 => by
+    unfold cmpLex cmpAsc at *; generalize f a = x at *; generalize f b = y at *; generalize f c = z at *
+    (repeat' split at *) <;> omega
+
+theorem lawful_cmpAbsSign : LawfulCmp cmpAbsSign := lawful_cmpLex absI
+theorem lawful_cmpEvenOdd : LawfulCmp cmpEvenOdd := lawful_cmpLex parityI
+
 /-- `ok` with a decidable check on the result (for the non-vacuity examples) -/
 def okAnd {α : Type} (o : Outcome α) (p : α → Bool) : Bool :=
   match o with
   | .ok a => p a
   | _ => false
+
+/-- the Boolean results of a history (for the non-vacuity examples) -/
+def outBools {K V : Type} : List (Out K V) → List Bool
+  | [] => []
+  | .bool b :: os => b :: outBools os
+  | _ :: os => outBools os
 
 end AlgoVerif.C01
